@@ -158,7 +158,7 @@ func schemaCmd(args []string) int {
 	fs.Parse(args)
 	setKnown(*kn)
 	st := NewStats("schema", *seed)
-	st.Rule = "table definitions built from structures: 1-5 columns with names that need and do not need quoting (spaces, '-', '.', non-ASCII, embedded quotes, keywords), optional known/unknown type words, constraint words in any order (PRIMARY KEY, NOT NULL, UNIQUE, DEFAULT/CHECK/REFERENCES/COLLATE), table-level PRIMARY KEY(...) with one or several names, duplicate names (also differing only in case); one definition in ten has a malformed text (trailing comma, NOT NULL / PRIMARY KEY written as one word) and must be rejected; the declared type of every column must be the type word written (none where none was written); s3_prefix is given in numeric-looking and quoted spellings and must be used as written; one definition in six is given a storage that cannot be opened (s3_endpoint without s3_bucket, or the first storage request failing) and must be rejected like any other; options well-formed, malformed (text, 1e3, empty, out of range), negative, missing a value, given a value they must not have, duplicated, unknown, misspelt; each structure is rendered with random quoting style, keyword case and white space and run through the real CREATE VIRTUAL TABLE; compared with the Lean decision on the structure: accept/reject, declared column names/order/key/NOT NULL (PRAGMA table_info), parsed option values (GetTable); plus: a rejected definition leaves no table registered and no object written, NOT NULL and key uniqueness are enforced on an accepted one; each definition runs in a child process; non-trivial = not the plain valid definition; distinct = distinct structure"
+	st.Rule = "table definitions built from structures: 1-5 columns with names that need and do not need quoting (spaces, '-', '.', non-ASCII, embedded quotes, keywords), optional known/unknown type words, constraint words in any order (PRIMARY KEY, NOT NULL, UNIQUE, DEFAULT/CHECK/REFERENCES/COLLATE), table-level PRIMARY KEY(...) with one or several names, duplicate names (also differing only in case); one definition in ten has a malformed text (trailing comma, NOT NULL / PRIMARY KEY written as one word) and must be rejected; the declared type of every column must be the type word written (none where none was written); s3_prefix is given in numeric-looking and quoted spellings and must be used as written; one definition in six is given a storage that cannot be opened (s3_endpoint without s3_bucket, or the first storage request failing) and must be rejected like any other; options well-formed, malformed (text, 1e3, empty, out of range), negative, missing a value, given a value they must not have, duplicated, unknown, misspelt; each structure is rendered with random quoting style, keyword case and white space and run through the real CREATE VIRTUAL TABLE; compared with the Lean decision on the structure: accept/reject, declared column names/order/key/NOT NULL (PRAGMA table_info), parsed option values (GetTable); plus: a rejected definition leaves no table registered and the bucket as it was (one bucket in four already holds two unmerged versions, so that an open would store a merge), NOT NULL and key uniqueness are enforced on an accepted one; each definition runs in a child process; non-trivial = not the plain valid definition; distinct = distinct structure"
 	isChild, from, to := childRange()
 	var e *Emitter
 	if !isChild {
@@ -350,6 +350,21 @@ func schemaCmd(args []string) int {
 			argv = append(argv, "s3_bucket='"+b+"'", "s3_endpoint='"+sqlh.Endpoint+"'", "s3_prefix="+pfxArg)
 		}
 		st.Count("storage_" + storage)
+		// one bucket in four already holds two unmerged versions under the prefix: opening it stores a merge,
+		// so a definition that is rejected only after the storage was opened leaves an object behind (F61)
+		if storage == "ok" && pfxWant == "p" && r.Chance(1, 4) {
+			for n := 0; n < 2; n++ {
+				d := sqlh.Open()
+				pre := fmt.Sprintf("pre%s", sqlh.Uniq())
+				sqlh.Exec(d, sqlh.CreateSQL(sqlh.TableOpts{Name: pre, Bucket: b, Prefix: "p", Columns: "k primary key, v"}))
+				defer d.Close()
+				defer sqlh.Exec(d, "select 1")
+				sqlh.Exec(d, fmt.Sprintf(`insert into "%s" values(?,?)`, pre), fmt.Sprintf("zzpre%d", n), "v")
+				_ = d
+			}
+			st.Count("bucket_with_two_unmerged_versions")
+		}
+		before := strings.Join(store.Keys(""), " ")
 		rendered := renderItems(r, items)
 		// sometimes the text itself is malformed although the structure is fine: a trailing comma, or a
 		// two-word keyword written as one word (SQLite would read that as a type name) — to be rejected
@@ -436,8 +451,8 @@ func schemaCmd(args []string) int {
 			if s3db.GetTable(tname) != nil {
 				fail("a rejected definition left the table registered")
 			}
-			if k := store.Keys(""); len(k) > 0 {
-				fail(fmt.Sprintf("a rejected definition wrote %d objects", len(k)))
+			if after := strings.Join(store.Keys(""), " "); after != before {
+				fail(fmt.Sprintf("a rejected definition changed the bucket: %d objects before, %d after", len(strings.Fields(before)), len(strings.Fields(after))))
 			}
 			// the name can be used again
 			if e2 := sqlh.Exec(db, fmt.Sprintf(`create virtual table "%s" using s3db (columns='a primary key', s3_bucket='%s', s3_endpoint='%s')`, tname, b, sqlh.Endpoint)); e2 != nil {
